@@ -72,6 +72,8 @@ def run_case(case):
             res.label('nodelist:partial_occupation')
         if s['blocked']:
             res.label('nodelist:blocked')
+        if s.get('same_names'):
+            res.label('nodelist:all_nodes_share_a_name')
         return res
     sim = schedsim.run_history(case)
     s = sim.stats
